@@ -183,6 +183,7 @@ func cmdQuery(args []string) {
 func dumpOnSignal() {
 	ch := make(chan os.Signal, 4)
 	signal.Notify(ch, syscall.SIGUSR1)
+	os.Stderr.WriteString("WQ-READY\n") // from here on SIGUSR1 is handled
 	go func() {
 		for range ch {
 			buf := make([]byte, 1<<22)
